@@ -20,14 +20,20 @@ func (m *ModbusTCPAssembler) ReceiveRead(ctx context.Context, received []byte, b
 	n, err := packet.LooksLikeModbusTCP(m.received.Bytes(), false)
 	if err == packet.ErrTCPDataTooShort {
 		return nil, false // wait for more data to arrive
-	} else if err != nil {
-		return err.(*packet.ErrorParseTCP).Bytes(), false
+	} else if n == 0 {
+		// stream can not be synchronized to the start of the next packet when it does not contain Modbus TCP packets
+		m.received.Reset()
+		return err.(*packet.ErrorParseTCP).Bytes(), true
 	}
 
 	if m.received.Len() < n {
 		return nil, false // wait for the rest of the packet to arrive
 	}
-	p, err := packet.ParseTCPRequest(m.received.Next(n))
+	frame := m.received.Next(n)
+	if err != nil { // packet with unsupported function code is answered and skipped
+		return err.(*packet.ErrorParseTCP).Bytes(), false
+	}
+	p, err := packet.ParseTCPRequest(frame)
 	if err != nil {
 		return err.(*packet.ErrorParseTCP).Bytes(), false
 	}
